@@ -357,7 +357,26 @@ func runC04(c *Ctx) {
 					nFalse++
 					// must be on the ctx.Done case (a select case, ctx.Err() != nil, or a predicate helper that says so)
 					okDone := ctxDoneAt(b, 0)
-					c.Check(okDone, "O4.3", sk+":false-only-when-cancelled", r.Pos(), "IsSlowDown returns constant false only in the ctx.Done() case")
+					// ... or where the window comparison itself is known false and nothing is left to re-measure:
+					// overdueDuration < MaxOverdueDuration with the stale flag known false (an early answer)
+					if !okDone {
+						below, notStale := false, false
+						for _, f := range CmpFactsAt(r) {
+							f = f.Canon()
+							if f.Op == token.LSS && IsFieldLoad(f.X, "Waiter", "overdueDuration") {
+								if k, isK := ConstInt(f.Y); isK && k == 2_000_000_000 {
+									below = true
+								}
+							}
+						}
+						for _, bf := range BoolFactsAt(r) {
+							if !bf.Val && IsFieldLoad(bf.Subj, "Waiter", "overdueStale") {
+								notStale = true
+							}
+						}
+						okDone = below && notStale
+					}
+					c.Check(okDone, "O4.3", sk+":false-only-when-cancelled", r.Pos(), "IsSlowDown returns constant false only in the ctx.Done() case (or where the lateness is known to be measured and below the window)")
 				} else {
 					c.Bad("O4.3", sk+":window-comparison", r.Pos(), "IsSlowDown returns constant true")
 				}
